@@ -1,3 +1,4 @@
+import Pyunicorn.Model.Net
 /-
 Model of the cross / internal measures of `InteractingNetworks`
 (src/pyunicorn/core/interacting_networks.py:381-1836) and of the four compiled
@@ -207,12 +208,17 @@ def crossCloseness (N : Nat) (D : Dist) (L1 L2 : List Nat) : List Rat :=
 def internalCloseness (D : Dist) (L : List Nat) : List Rat :=
   generalCloseness L.length ((L.length : Int) - 1) (block D L L)
 
+/-- `1/d` with `1/inf = 0` -/
+def invD : Option Rat → Rat
+  | none => 0
+  | some d => 1 / d
+
 /-- `local_efficiency`: row means of `1/d` (`1/inf = 0`); `none` if some `d = 0` or `L2 = []` -/
 def localEfficiency (D : Dist) (L1 L2 : List Nat) : Option (List Rat) :=
   let B := block D L1 L2
   if L2.length = 0 ∨ B.any (fun r => r.any (· == some 0)) then none
   else some (B.map fun r =>
-    (r.map fun x => match x with | none => (0 : Rat) | some d => 1 / d).sum / (L2.length : Rat))
+    (r.map invD).sum / (L2.length : Rat))
 
 /-! ### n.s.i. measures (interacting_networks.py:1531-1836) -/
 
@@ -311,6 +317,44 @@ def nsiCrossAPLParts (N : Nat) (D : Dist) (w : Nat → Rat) (L1 L2 : List Nat) :
 def nsiCrossAPL (N : Nat) (D : Dist) (w : Nat → Rat) (L1 L2 : List Nat) : Option Rat :=
   let p := nsiCrossAPLParts N D w L1 L2
   if p.2 = 0 then none else some (p.1 / p.2)
+
+/-! ### means of the vector measures, efficiency (interacting_networks.py:608-627, 758-823,
+1020-1066) and the single-network clustering restricted to a group (725-756) -/
+
+/-- result of a float expression that can overflow to `inf` or be undefined -/
+inductive XR where
+  | val (r : Rat)
+  | inf
+  | nan
+  deriving DecidableEq, Repr
+
+/-- `total_cross_degree` = `np.mean(cross_degree)` -/
+def totalCrossDegree (directed : Bool) (A : Adj) (L1 L2 : List Nat) : Option Rat :=
+  mean (natsToRat (crossDegree directed A L1 L2))
+
+/-- `cross_global_clustering_sparse` = mean of `cross_local_clustering_sparse` -/
+def crossGlobalClusteringSparse (directed : Bool) (A : Adj) (L1 L2 : List Nat) : Option Rat :=
+  mean (clcSparse directed A L1 L2)
+
+/-- `average_cross_closeness` = `np.mean(cross_closeness)` -/
+def averageCrossCloseness (N : Nat) (D : Dist) (L1 L2 : List Nat) : Option Rat :=
+  mean (crossCloseness N D L1 L2)
+
+/-- `global_efficiency` = `1 / np.mean(local_efficiency)`: a zero distance makes a local
+efficiency `inf` (all terms are `≥ 0`), whose reciprocal is `0`; a zero mean gives `inf`, an
+empty first group `nan` -/
+def globalEfficiency (D : Dist) (L1 L2 : List Nat) : XR :=
+  match localEfficiency D L1 L2 with
+  | none => if L2.length = 0 then .nan else .val 0
+  | some l =>
+    match mean l with
+    | none => .nan
+    | some m => if m = 0 then .inf else .val (1 / m)
+
+/-- `internal_global_clustering(L)` = `local_clustering()[L].mean()`: the Watts–Strogatz
+clustering of the *whole* network (`Pyunicorn.Net.localClustering`, C03) averaged over the group -/
+def internalGlobalClustering (n : Nat) (A : Adj) (L : List Nat) : Option Rat :=
+  mean (L.map fun i => Pyunicorn.Net.localClustering n A i)
 
 /-! ### specification vocabulary -/
 
